@@ -209,6 +209,8 @@ def rules(chk, db):
 def run(chk, db):
     facts.gate(chk, db, ['nop/types/variant.h', 'nop/types/detail/variant.h'])
     rules(chk, db)
+    from .. import witness
+    witness.run(chk, 'c13_moves.cpp', 'MVW', 'compile-time witnesses: moving a Variant (and the other sum types) compiles for a move-only alternative', minimum=5)
     chk.explanation = (
         'Abstract execution (finite heap of flag cells and dead/live storage cells) of every Variant/Union member reached from the '
         'public operations, explored to a fixpoint over all reachable states of two interacting Variants. Equality of copies as values '
